@@ -380,9 +380,33 @@ func (w *World) userRegister(ui int, op *UserOp) {
 	ctx := context.Background()
 	var ch <-chan gnet.RegisteredResult
 	var err error
+	// the per-loop variants: the new connection must live on the loop of the
+	// connection whose EventLoop() was used
+	var host *connState
+	if op.K == "enroll-loop" || op.K == "register-loop" {
+		nAcc := 0
+		for _, cp := range w.p.Conns {
+			if !cp.Dial {
+				nAcc++
+			}
+		}
+		if nAcc == 0 {
+			return
+		}
+		host = w.waitConn(op.N%nAcc, false)
+		if host == nil || host.closed {
+			ps.done = true
+			return
+		}
+		w.probes["register-on-a-given-loop"]++
+		ps.regOutsideRunning = true // the balancer is bypassed: nothing to say about the policy
+	}
 	if op.K == "register" {
 		w.dialQueue = append(w.dialQueue, idx)
 		ch, err = w.handle().Register(gnet.NewNetAddrContext(ctx, w.dialAddr(idx)))
+	} else if op.K == "register-loop" {
+		w.dialQueue = append(w.dialQueue, idx)
+		ch, err = host.c.EventLoop().Register(ctx, w.dialAddr(idx))
 	} else {
 		network := "tcp"
 		if w.p.Cfg.Network == "unix" {
@@ -403,7 +427,11 @@ func (w *World) userRegister(ui int, op *UserOp) {
 			}
 			w.probes["enroll-unsupported-type"]++
 		}
-		ch, err = w.handle().Register(gnet.NewNetConnContext(ctx, c))
+		if op.K == "enroll-loop" {
+			ch, err = host.c.EventLoop().Enroll(ctx, c)
+		} else {
+			ch, err = w.handle().Register(gnet.NewNetConnContext(ctx, c))
+		}
 	}
 	w.logf("user%d %s conn=%d in %s -> err=%v", ui, op.K, idx, before, err)
 	w.probes["register-calls"]++
@@ -459,6 +487,12 @@ func (w *World) userRegister(ui int, op *UserOp) {
 		w.violate("C19", "register-unsupported-accepted", "enroll of an unsupported connection type for conn %d delivered a connection", idx)
 	case res.Conn != nil:
 		w.probes["register-succeeded"]++
+		if host != nil {
+			if ncs := w.byConn[res.Conn]; ncs != nil && ncs.task != "" && host.task != "" && ncs.task != host.task {
+				w.violate("C05", "enrolled-on-other-loop", "%s through the EventLoop of conn %d (loop %s) produced conn %d whose callbacks run on loop %s", op.K, host.idx, host.task, ncs.idx, ncs.task)
+				w.violate("C15", "enrolled-on-other-loop", "%s through the EventLoop of conn %d (loop %s) produced conn %d whose callbacks run on loop %s", op.K, host.idx, host.task, ncs.idx, ncs.task)
+			}
+		}
 		cs := w.byConn[res.Conn]
 		if (cs == nil || !cs.opened) && !w.stopRequested && !w.runDone && w.engState() == stRunning {
 			w.violate("C19", "register-unusable", "%s for conn %d reported success but the connection never had OnOpen", op.K, idx)
